@@ -43,7 +43,11 @@ TokLike == {S_(x) : x \in TokStr}
            \cup {[t |-> "arr", a |-> <<S_(<<"[">>), S_(<<"]">>)>>], [t |-> "arr", a |-> <<S_(<<"{">>), [t |-> "arr", a |-> <<>>], S_(<<"}">>)>>],
                  [t |-> "obj", m |-> <<[k |-> <<"o">>, v |-> S_(<<"{">>)], [k |-> <<"c">>, v |-> S_(<<"}">>)]>>],
                  [t |-> "obj", m |-> <<[k |-> <<"[">>, v |-> S_(<<"]">>)], [k |-> <<"}">>, v |-> [t |-> "obj", m |-> <<>>]]>>],
-                 [t |-> "arr", a |-> <<S_(<<>>), S_(<<"a">>), S_(<<>>), S_(<<"b">>)>>]}
+                 [t |-> "arr", a |-> <<S_(<<>>), S_(<<"a">>), S_(<<>>), S_(<<"b">>)>>],
+                 \* numbers that compare equal but are different doubles, in one document
+                 [t |-> "arr", a |-> <<[t |-> "num", n |-> Zero(1)], [t |-> "num", n |-> Zero(-1)], [t |-> "num", n |-> Zero(1)]>>],
+                 [t |-> "arr", a |-> <<[t |-> "num", n |-> Zero(-1)], [t |-> "num", n |-> Zero(1)]>>],
+                 [t |-> "num", n |-> Zero(1)]}
 Values(d) == Scalars \cup OddKeys \cup TokLike \cup V1 \cup (IF d >= 2 THEN V2 ELSE {}) \cup (IF d >= 3 THEN V3 ELSE {})
 
 VARIABLES vals,   \* the top-level values of the text
